@@ -191,6 +191,77 @@ walk_program(const TranslationTableRule *r) {
 	printf(" ; BND %d 1", bad ? 1 : 0);
 }
 
+/* Structure of one compiled match pattern (pattern.c): e[0] = number of words used, e[1] = number of loop counters, the
+ * expression starts at word 2; a node is (type, prv, nxt, data...); sub-expressions (group, not, optional, loops, the two
+ * branches of an alternation) start at the word index held in the node's data and end in an END node.  Walked the way
+ * pattern_check_expression steps through it; returns 1 when every node lies inside the object, has a known type, every
+ * link and loop-counter number is in range and every path ends in an END node. */
+enum { P_ERROR, P_START, P_GROUP, P_NOT, P_ONE_MORE, P_ZERO_MORE, P_OPTIONAL, P_ALTERNATE, P_ANY, P_ATTRIBUTES, P_CHARS, P_HOOK,
+	P_END_OF_INPUT, P_END = 0xffff };
+static long ptn_steps;
+static int
+ptn_walk(const widechar *e, int len, int loops, int crs, int depth) {
+	if (depth > 100) return 0;
+	for (;;) {
+		int t;
+		if (crs < 2 || crs + 2 >= len) return 0;
+		if (++ptn_steps > 2000000) return 0;
+		t = e[crs];
+		if (t == P_END) return 1;
+		switch (t) {
+		case P_START: case P_ANY: case P_END_OF_INPUT:
+			break;
+		case P_GROUP: case P_NOT: case P_OPTIONAL:
+			if (crs + 3 >= len || !ptn_walk(e, len, loops, e[crs + 3], depth + 1)) return 0;
+			break;
+		case P_ONE_MORE: case P_ZERO_MORE:
+			if (crs + 4 >= len || e[crs + 4] >= loops || !ptn_walk(e, len, loops, e[crs + 3], depth + 1)) return 0;
+			break;
+		case P_ALTERNATE:
+			if (crs + 4 >= len || !ptn_walk(e, len, loops, e[crs + 3], depth + 1) || !ptn_walk(e, len, loops, e[crs + 4], depth + 1)) return 0;
+			break;
+		case P_ATTRIBUTES:
+			if (crs + 4 >= len) return 0;
+			break;
+		case P_CHARS: case P_HOOK:
+			if (crs + 3 >= len || crs + 3 + e[crs + 3] >= len) return 0;
+			break;
+		default:
+			return 0;
+		}
+		crs = e[crs + 2];
+	}
+}
+/* match / backmatch rule: rule->patterns designates  [mrk][before pattern ...][after pattern ...]  with mrk = index of the
+ * after pattern.  Emits a REF for the whole object (its size follows from the two lengths stored in it) and BND 0 1 / 1 1
+ * for each half telling whether it is a well-formed pattern. */
+static void
+walk_patterns(const TranslationTableRule *r) {
+	const widechar *p;
+	int mrk, blen, alen, okb = 0, oka = 0;
+	if (!r->patterns || !valid_off(r->patterns)) {
+		printf(" ; REF pattern %u 999999999", r->patterns);
+		return;
+	}
+	p = (const widechar *)&T->ruleArea[r->patterns];
+	mrk = p[0];
+	blen = p[1];
+	/* the size of the allocation is not known here: read the second length only if the first half is plausible */
+	if (mrk >= 6 && blen + 1 <= mrk && mrk < 30000) {
+		alen = p[mrk];
+		ptn_steps = 0;
+		okb = ptn_walk(&p[1], blen, p[2], 2, 0);
+		if (alen >= 5 && alen < 30000) {
+			printf(" ; REF pattern %u %d", r->patterns, (int)((mrk + alen) * sizeof(widechar)));
+			ptn_steps = 0;
+			oka = ptn_walk(&p[mrk], alen, p[mrk + 1], 2, 0);
+		} else
+			printf(" ; REF pattern %u %d", r->patterns, (int)((mrk + 5) * sizeof(widechar)));
+	} else
+		printf(" ; REF pattern %u %d", r->patterns, 12);
+	printf(" ; BND %d 1 ; BND %d 1", okb ? 0 : 1, oka ? 0 : 1);
+}
+
 static void
 dump(const char *tl, int ok) {
 	int k;
@@ -318,6 +389,7 @@ dump(const char *tl, int ok) {
 			const TranslationTableRule *r = (const TranslationTableRule *)&T->ruleArea[rules[k].off];
 			printf(" ; RU %u %d %d %d %d %d", rules[k].off, (int)r->opcode, r->charslen, r->dotslen, rules[k].nofor, rules[k].noback);
 			if (r->opcode >= CTO_Context && r->opcode <= CTO_Pass4) walk_program(r);
+			if (r->opcode == CTO_Match || r->opcode == CTO_BackMatch) walk_patterns(r);
 		}
 	}
 	printf("\n");
